@@ -265,6 +265,15 @@ def triangle_angles(tier, rng, rep):
                     # parabolic fixed points (infinite labels) are eigenvectors of defective matrices: accuracy O(sqrt(eps))
                     if not (abs(ang - np.pi / lab[k_]) <= (1e-6 if min(pqr) > 0 else 2e-4)):
                         rep.fail("interior_angle", f"vertex {k_}: {ang} vs pi/{lab[k_]}", inp); return False
+                # the same three angles computed in one go from the composite of the three vertices (as the stacked fixed points
+                # come out of the library: arbitrary signs of the homogeneous representatives)
+                if all(lab[k_] > 0 for k_ in keys):
+                    Vd = np.stack([verts[k_] for k_ in keys])
+                    V = h.Point(Vd.copy())
+                    angs = V.unit_tangent_towards(h.Point(np.roll(Vd, -1, axis=0))).angle(V.unit_tangent_towards(h.Point(np.roll(Vd, 1, axis=0))))
+                    want = np.array([np.pi / lab[k_] for k_ in keys])
+                    if not np.all(np.abs(np.asarray(angs, dtype=float) - want) <= 1e-6):
+                        rep.fail("interior_angle", f"angles of the composite of the three vertices {np.asarray(angs).tolist()} vs {want.tolist()}", inp); return False
                 return True
             rep.attempt("triangle_runs", inp, body)
             rep.case(key=pqr, nontrivial=(min(pqr) <= 0 or len(set(pqr)) < 3), sample=inp if pqr == (2, 3, 7) else None)
